@@ -214,7 +214,8 @@ func validateSandbox(state *core.BuildState, target *core.BuildTarget) error {
 		}
 	}
 	for _, dir := range state.Config.Parse.ExperimentalDir {
-		if strings.HasPrefix(target.Label.PackageName, dir) {
+		// The package must be the experimental directory or lie under it, not merely share its name as a prefix.
+		if target.Label.PackageName == dir || strings.HasPrefix(target.Label.PackageName, dir+"/") {
 			return nil
 		}
 	}
